@@ -898,6 +898,7 @@ func runCollections(c *world, r *kit.Result, kt keyType, seqs [][]int, reps int)
 			private := ingest.VerifC18OverlayState(w)
 			key := hash(private)
 			if seen[key] {
+				r.AddOutcome("K:state-already-checked:" + ctx.name)
 				continue
 			}
 			seen[key] = true
@@ -1020,7 +1021,7 @@ func main() {
 					runHistory(c, &r, alphabet, cd.first, depth, reps, cd.first%17 == 0)
 					return r
 				}}, fmt.Sprintf("part V: %d values x 28 places x %d ID schemes; "+
-					"part K: all %d key sequences of length <= %d over 4 ordered keys x %d key types (string, int, feature-id, mixed int+string) x 6 histories (add; replace base collection; add + AddTag; add tagged + searchable AddTag + RemoveTag; add another collection then replace it; replace base + AddTag) x %d ID schemes; "+
+					"part K: all %d key sequences of length <= %d over 4 ordered keys x %d key types (string, int, feature-id, mixed int+string) x 6 histories (add; replace base collection; add + AddTag; add tagged + searchable AddTag + RemoveTag; add another collection then replace it [same private state as plain add: checked once]; replace base + AddTag) x %d ID schemes; "+
 					"part H: all histories of <= %d successful operations over %d operations (%d feature additions incl. %d collections: for string and for int keys one per length 2..4 and order class ascending / descending / unsorted only in first pair / only in last pair / only in the middle / equal keys; level 3: %d-operation reduced alphabet), scheme %s; each export repeated %d times; "+
 					"observations per state: worldkit dump over %d IDs + per feature Get(%d keys), Reference(i); per collection and route (FindFeatureByID, FindCollectionsByFeature(every ID), FindFeatures(all), EachFeature) typed items, Count, FindValue and FindValues for every key of the edited collection + %d menu keys (absent, other kinds); features as returned by FindFeatures(all) and EachFeature; Tokens",
 					len(valueMenu), len(schemes), len(seqs), maxLen, nKeyTypes, len(schemes), depth, nOps, nFeatureOps, len(collectionRepresentatives(idsFor(wk.Schemes[1])))+5, nDeep, wk.Schemes[schemes[0]].Name, reps,
